@@ -13,7 +13,7 @@ RULE = (
     "for every base blob (quick: SHA512/nonce and SHA256/P-256 in both layouts + one 300-byte plaintext; thorough: 4 hashes x {nonce,DH,P256,P384} x 2 layouts + the long one), exhaustively: "
     "every single-bit flip, every truncation length, deletion of each byte, insertion of 00/FF at each offset, every TLV-header byte and key-identifier header byte replaced by each of "
     "{00,01,7F,80,81,FF}, and all pairs of flips among {bit 0 of every byte whose flip was harmless} u {first bit of every field}. Each mutated blob is decrypted by the real unprotect API with an offline "
-    "cache holding the right root key (network seams raise). Oracle: original plaintext | any exception | needs-network; different bytes is the violation. Distinct by (blob, mutation); non-trivial = the "
+    "cache holding the right root key (network seams raise). Blobs rejected by the authentication checks are decrypted a second time in the same process (a retry must not succeed). Oracle: original plaintext | any exception | needs-network; different bytes is the violation. Distinct by (blob, mutation); non-trivial = the "
     "mutated bytes differ from the original."
 )
 ASSUME = ["offline KeyCache with the matching root key; DNS/socket seams raise NeedsNetwork", "BudgetExceeded / hangs are C05's subject, not C04's"]
@@ -39,6 +39,11 @@ def unprotect(base: bm.Base, data: bytes):
 
 def judge(acc, base: bm.Base, label, data: bytes, fm) -> str:
     st, v = unprotect(base, data)
+    if st == "exc" and type(v).__name__ in ("InvalidTag", "InvalidUnwrap"):
+        # a rejected blob must stay rejected: decrypt it again in the same process (retry / second caller)
+        st2, v2 = unprotect(base, data)
+        if st2 == "ok":
+            st, v = st2, v2
     if st == "ok":
         if bytes(v) != base.plaintext:
             off = label[1] // 8 if label[0] in ("flip", "flip2") else (label[1] if len(label) > 1 and isinstance(label[1], int) else 0)
